@@ -15,6 +15,7 @@
 package cluster
 
 import (
+	"errors"
 	"container/heap"
 	"fmt"
 	"io"
@@ -223,7 +224,29 @@ func (c *Cluster) Start(idx int) error {
 		c.record(idx, inc, req, resp, aerr)
 		return resp, aerr
 	}
-	st := store.NewStoreWithConfig(store.Config{StoreID: n.StoreID, CommandApplier: applier, CommandTimeout: c.opt.CommandTimeout})
+	// children of a split are built like the bootstrapped peers
+	builder := func(meta manifest.RegionMeta) (*peer.Config, error) {
+		var pid uint64
+		for _, p := range meta.Peers {
+			if p.StoreID == n.StoreID {
+				pid = p.PeerID
+			}
+		}
+		if pid == 0 {
+			return nil, fmt.Errorf("region %d has no peer on store %d", meta.ID, n.StoreID)
+		}
+		return &peer.Config{
+			RaftConfig: myraft.Config{ID: pid, ElectionTick: c.opt.ElectionTick, HeartbeatTick: c.opt.HeartbeatTick,
+				MaxSizePerMsg: c.opt.MaxSizePerMsg, MaxInflightMsgs: 256, PreVote: true},
+			Transport: nodeTransport{c.net, idx},
+			Apply:     kv.NewEntryApplier(db),
+			WAL:       db.WAL(),
+			Manifest:  db.Manifest(),
+			GroupID:   meta.ID,
+			Region:    manifest.CloneRegionMetaPtr(&meta),
+		}, nil
+	}
+	st := store.NewStoreWithConfig(store.Config{StoreID: n.StoreID, CommandApplier: applier, CommandTimeout: c.opt.CommandTimeout, PeerBuilder: builder})
 	for _, r := range c.opt.Regions {
 		meta := c.regionMeta(r)
 		cfg := &peer.Config{
@@ -548,6 +571,50 @@ func (c *Cluster) Isolate(idx int) { c.net.heal(); c.net.isolate(idx) }
 
 // Cut cuts the directed link a -> b (healing any earlier partition first).
 func (c *Cluster) Cut(a, b int) { c.net.heal(); c.net.cut(a, b, true) }
+
+// Split proposes, at the region's current leader, a split of the region at splitKey into the
+// region itself ([start, splitKey)) and a new region childID ([splitKey, end)) with one peer per
+// store. The command travels through the parent's raft log like any write.
+func (c *Cluster) Split(region, childID uint64, splitKey []byte) error {
+	l, _, ok := c.Leader(region)
+	if !ok {
+		return errors.New("no leader")
+	}
+	n := c.Nodes[l]
+	n.gate.RLock()
+	defer n.gate.RUnlock()
+	if n.down {
+		return errors.New("leader store is down")
+	}
+	parent, ok := n.st.RegionMetaByID(region)
+	if !ok {
+		return fmt.Errorf("region %d unknown on store %d", region, l)
+	}
+	child := manifest.RegionMeta{ID: childID, StartKey: append([]byte(nil), splitKey...), EndKey: append([]byte(nil), parent.EndKey...),
+		Epoch: manifest.RegionEpoch{Version: 1, ConfVersion: 1}}
+	c.net.mu.Lock()
+	for i := 0; i < c.opt.Stores; i++ {
+		child.Peers = append(child.Peers, manifest.PeerMeta{StoreID: uint64(i + 1), PeerID: PeerID(childID, i)})
+		c.net.peerStore[PeerID(childID, i)] = i
+	}
+	c.net.mu.Unlock()
+	return n.st.ProposeSplit(region, child, splitKey)
+}
+
+// RegionEpoch is the epoch of the region in store idx's catalog.
+func (c *Cluster) RegionEpoch(idx int, region uint64) (*pb.RegionEpoch, bool) {
+	n := c.Nodes[idx]
+	n.gate.RLock()
+	defer n.gate.RUnlock()
+	if n.down {
+		return nil, false
+	}
+	m, ok := n.st.RegionMetaByID(region)
+	if !ok {
+		return nil, false
+	}
+	return &pb.RegionEpoch{Version: m.Epoch.Version, ConfVer: m.Epoch.ConfVersion}, true
+}
 
 // SetAsyncDelivery switches the pump between lock-step delivery (every store finishes its round
 // before the next store is served) and side-by-side delivery (a store that is still busy with
